@@ -321,4 +321,74 @@ for name, tmpl in LAYOUTS.items():
         prol["%s/%s" % (name, "async" if a else "sync")] = found
 out["prologues"] = prol
 
+# ---------------------------------------------------------------- stdlib API surface (names + call signatures)
+import importlib
+import inspect
+
+STDLIB = ["abc", "bisect", "builtins", "collections", "collections.abc", "contextlib", "ctypes", "dataclasses", "dis", "functools", "gc",
+          "inspect", "itertools", "linecache", "sys", "threading", "traceback", "types", "typing", "warnings", "weakref"]
+
+
+def sig_of(obj):
+    try:
+        sg = inspect.signature(obj)
+    except (TypeError, ValueError):
+        return None
+    pos_min = 0
+    pos_max = 0
+    kw = []
+    kw_required = []
+    varkw = False
+    for p in sg.parameters.values():
+        if p.kind in (p.POSITIONAL_ONLY, p.POSITIONAL_OR_KEYWORD):
+            if pos_max is not None:
+                pos_max += 1
+            if p.default is p.empty:
+                pos_min += 1
+            if p.kind == p.POSITIONAL_OR_KEYWORD:
+                kw.append(p.name)
+        elif p.kind == p.VAR_POSITIONAL:
+            pos_max = None
+        elif p.kind == p.KEYWORD_ONLY:
+            kw.append(p.name)
+            if p.default is p.empty:
+                kw_required.append(p.name)
+        elif p.kind == p.VAR_KEYWORD:
+            varkw = True
+    return {"pos_min": pos_min, "pos_max": pos_max, "kw": kw, "kw_required": kw_required, "varkw": varkw}
+
+
+api = {}
+for name in STDLIB:
+    try:
+        m = importlib.import_module(name)
+    except Exception:
+        continue
+    entry = {"names": sorted(dir(m)), "sigs": {}, "members": {}}
+    for attr in dir(m):
+        if attr.startswith("__"):
+            continue
+        try:
+            obj = getattr(m, attr)
+        except Exception:
+            continue
+        if callable(obj):
+            sg = sig_of(obj)
+            if sg is not None:
+                entry["sigs"][attr] = sg
+        if inspect.isclass(obj):
+            # metaclass attributes (ctypes' from_address etc.) are reachable through the class too
+            entry["members"][attr] = sorted(x for x in set(dir(obj)) | set(dir(type(obj))) if not x.startswith("__"))
+            for meth in entry["members"][attr]:
+                try:
+                    mo = getattr(obj, meth)
+                except Exception:
+                    continue
+                if callable(mo) and not meth.startswith("_"):
+                    sg = sig_of(mo)
+                    if sg is not None:
+                        entry["sigs"][attr + "." + meth] = sg
+    api[name] = entry
+out["stdlib"] = api
+
 json.dump(out, sys.stdout)
